@@ -24,6 +24,7 @@ from .. import tlc
 from ..common import MachineryError, time_limit, ImplTimeout
 
 NWORK = 14
+BATCH = 25000  # traces per judge run
 LIMIT = 20  # seconds per library call; a time-out is retried once in a new process with 10 x LIMIT
 
 
@@ -231,8 +232,9 @@ class _Items:
         return 0
 
 
-def _sec(sec, items, var=False, multi=False, free=False, must=True):
-    return {"sec": sec, "var": var, "multi": multi, "free": free, "must": must, "items": items}
+def _sec(sec, items):
+    """a namespace; what the section names mean is stated in spec/Renamer.tla (SecVar, SecMulti, SecFree, SecMust)"""
+    return {"sec": sec, "items": items}
 
 
 def _collect(problem):
@@ -245,17 +247,17 @@ def _collect(problem):
     spaces.append(_sec("objects", [it.add("object", o, o.name) for o in problem.all_objects]))
     spaces.append(_sec("fluents", [it.add("fluent", f, f.name) for f in problem.fluents]))
     # (an action whose preconditions are trivially false is omitted by the PDDL writer: may stay unnamed)
-    spaces.append(_sec("actions", [it.add("action", a, a.name) for a in problem.actions], must=False))
+    spaces.append(_sec("actions", [it.add("action", a, a.name) for a in problem.actions]))
     for f in problem.fluents:
-        spaces.append(_sec("signature", [it.add("param", p, p.name) for p in f.signature], var=True))
+        spaces.append(_sec("signature", [it.add("param", p, p.name) for p in f.signature]))
     for a in problem.actions:
         ps = [it.add("param", p, p.name) for p in a.parameters]
-        spaces.append(_sec("parameters", ps, var=True, must=False))
+        spaces.append(_sec("parameters", ps))
         qs = [it.add("qvar", v, v.name) for v in _qvars_of_action(a)]
-        spaces.append(_sec("scope", sorted(set(ps + qs)), var=True, multi=True, must=False))
+        spaces.append(_sec("scope", sorted(set(ps + qs))))
     qs = [it.add("qvar", v, v.name) for v in _qvars_top(problem)]
-    spaces.append(_sec("top", sorted(set(qs)), var=True, multi=True, must=False))
-    spaces.append(_sec("files", [], free=True, must=False))
+    spaces.append(_sec("top", sorted(set(qs))))
+    spaces.append(_sec("files", []))
     return it, spaces
 
 
@@ -429,7 +431,7 @@ def observe_pddl(problem, limit):
         return {"status": "harvest", "out": [dom, prob]}
     tback = []
     for s, names in enumerate(text):
-        if spaces[s]["free"]:
+        if spaces[s]["sec"] == "files":
             continue
         for n in _uniq(names):
             e = {"s": s + 1, "n": cp(n), "ok": False, "rn": []}
@@ -908,14 +910,21 @@ def skeleton_upj(case):
         "traj": [E("sometime", [zf])] if "traj" in feats else [],
         "timed_goals": [],
         "timed_effects": [],
-        "metric": {"kind": "none", "costs": [], "default": E("none"), "expr": E("none"), "goals": []},
-        "nmetrics": 0,
+        # (a plan-length metric makes the PDDL writer declare its own total-cost function)
+        "metric": {"kind": "none" if "temporal" in feats else "length", "costs": [], "default": E("none"), "expr": E("none"), "goals": []},
+        "nmetrics": 0 if "temporal" in feats else 1,
         "ifuns": [],
     }
 
 
-UNIVERSE_Q = ["a", "A", "a_", "a_0", "A_0", "a b", "a-b", "a_b", "1", "o_1", "and", "AND", "and_", "start", "start_", "", "?a"]
-UNIVERSE_T = ["a", "A", "a_", "a_0", "a b", "a_b", "1", "o_1", "x_1", "and", "and_", "start", "always", ""]
+# universes of the TLC-enumerated skeletons: (names, kinds, feature sets, max items).  The first one is
+# also the universe of the T1 design check.
+KINDS4 = ["object", "fluent", "action", "param"]
+FAM_Q = [(["a", "A", "a_0", "a b", "a_b", "1", "o_1", "and", "start", "", "total-cost"], KINDS4, [[], ["temporal"]], 2)]
+FAM_T = [(["a", "A", "a_", "a_0", "A_0", "a b", "a-b", "a_b", "1", "o_1", "and", "AND", "and_", "start", "", "total-cost"], KINDS4,
+          [[], ["temporal"]], 2),
+         (["a", "A", "a_0", "a b", "1", "and", "start", ""], ["object", "action", "param"], [[], ["temporal"]], 3),
+         (["a", "a_", "always", "ALWAYS", "at", "at_", "within", "start"], ["fluent", "action", "param"], [[], ["traj"], ["temporal"]], 2)]
 
 T1_CFG = """SPECIFICATION ISpec
 CONSTANTS AliasKw = %(alias)s
@@ -1063,83 +1072,86 @@ def run(ctx):
     tlc.write_json(kwpath, kws)
     # C38_SCALE < 1 shrinks the run (development on a busy machine only; recorded in the evidence)
     scale = float(os.environ.get("C38_SCALE", "1") or 1)
-    universe = UNIVERSE_Q if q else UNIVERSE_T
+    fams = FAM_Q if q else FAM_T
     if scale < 1:
-        universe = universe[: max(5, int(len(universe) * scale))]
+        fams = [(["a", "A", "a b", "and", "start", "total-cost", "1", ""][: max(5, int(20 * scale))], ["fluent", "action", "param"], [[], ["temporal"]], 2)]
         ctx.cov["scale"] = scale
-    mi = 2 if q else 3
-    featsets = [[], ["temporal"]] if q else [[], ["temporal"], ["traj"]]
-    unipath = os.path.join(d0, "univ.json")
-    tlc.write_json(unipath, {"names": [cp(n) for n in universe], "kinds": ["object", "action", "param"], "feats": featsets})
-    env = {"KW": kwpath, "UNIV": unipath}
-
-    # ---- T1: design check ----------------------------------------------------------------
+    nfresh = max(4, int((40 if q else 300) * scale))
+    stats = {}
     t1_notes = []
-    for lang in ("pddl", "anml"):
-        for alias, anch, label in (("FALSE", "TRUE", "repaired"), ("TRUE", "FALSE", "as-written")):
-            res = tlc.run_tlc("RenamerImpl", T1_CFG % {"alias": alias, "anch": anch, "mi": 2, "lang": lang}, ctx.sub("t1"),
-                              env=env, timeout=3000, coverage=(label == "repaired"))
-            if res.error:
-                raise MachineryError(res.error)
-            ctx.add_tlc("T1 %s %s" % (lang, label), res)
-            if label == "repaired":
-                need = ["INew", "IName", "ITouch"] if lang == "pddl" else ["INew"]
-                for a in need:
-                    if res.coverage.get(a, (0, 0))[0] == 0:
-                        raise MachineryError("T1 %s: action %s never taken (vacuous design check)" % (lang, a))
-                if res.violated:
-                    ctx.violation("T1|%s|%s" % (lang, res.violated),
-                                  "the repaired naming design (%s) violates %s" % (lang, res.violated),
-                                  {"trace": [s["vars"].get("wr") for s in res.trace]})
-            elif res.violated:
-                # a design-level counterexample of the mechanism as written: the problem is one of the
-                # skeletons replayed below on the real writers, where the judge decides
-                wr = res.trace[-1]["vars"].get("wr", {}) if res.trace else {}
-                p = wr.get("p", {}) if isinstance(wr, dict) else {}
-                try:
-                    items = [[x["kind"], uncp(x["orig"])] for x in p.get("items", [])]
-                except Exception:
-                    items = []
-                t1_notes.append({"lang": lang, "violates": res.violated, "items": items, "touched_before": res.trace[-1]["vars"].get("touched") if res.trace else None})
-    ctx.notes["t1_as_written_counterexamples"] = t1_notes
-
-    # ---- T2: TLC-enumerated skeletons on the real writers --------------------------------
-    d = ctx.sub("enum")
-    out = os.path.join(d, "cases.ndjson")
-    e2 = dict(env)
-    e2["OUT"] = out
-    res = tlc.run_tlc("RenamerEnum", "INIT EInit\nNEXT ENext\nCONSTANTS AliasKw = FALSE\n Anchored = TRUE\n MaxItems = %d\n MaxTouch = 0\n Lang = \"pddl\"\n" % mi,
-                      d, env=e2, workers=1, timeout=3000)
-    if res.error:
-        raise MachineryError(res.error)
-    cases = tlc.read_ndjson(out)
-    if not cases:
-        raise MachineryError("RenamerEnum emitted nothing")
+    nontrivial = 0
+    n_enum = 0
     toucher = skeleton_upj({"feats": ["temporal"], "items": []})
     toucher2 = skeleton_upj({"feats": ["traj"], "items": []})
-    nfresh = max(4, int((40 if q else 300) * scale))
-    pl = _Plan(0)
-    sample = set(rng.sample(range(len(cases)), min(nfresh, len(cases))))
-    for i, c in enumerate(cases):
-        P = skeleton_upj(c)
-        desc = {"skeleton": [[x["kind"], uncp(x["orig"])] for x in c["items"]], "feats": c["feats"]}
-        pre = toucher if "temporal" not in c["feats"] else toucher2
-        for mode in (["reload", "fresh"] if i in sample else ["reload"]):
+    env = {"KW": kwpath}
+    for fi, (unames, ukinds, featsets, mi) in enumerate(fams):
+        unipath = os.path.join(d0, "univ%d.json" % fi)
+        tlc.write_json(unipath, {"names": [cp(n) for n in unames], "kinds": ukinds, "feats": featsets})
+        envf = {"KW": kwpath, "UNIV": unipath}
+        # ---- T1: design check (first universe) ---------------------------------------------
+        if fi == 0:
             for lang in ("pddl", "anml"):
-                pl.add(lang, ("s", i), [{"op": "write", "P": P}], mode, desc)
-            pl.add("pddl", ("s", i), [{"op": "touch", "P": pre}, {"op": "write", "P": P}], mode, desc)
-    stats = {}
-    results = run_tasks(pl.tasks)
-    traces = assemble(ctx, results, pl.plan, kwlen, stats)
-    ctx.cov["evaluations"] += len(results)
-    judge(ctx, "enum", traces, env, pl.meta)
-    nontrivial = sum(1 for t in traces if any(it["name"] != it["orig"] for it in t["ops"][-1]["items"]))
-    n_enum = len(traces)
+                for alias, anch, label in (("FALSE", "TRUE", "repaired"), ("TRUE", "FALSE", "as-written")):
+                    res = tlc.run_tlc("RenamerImpl", T1_CFG % {"alias": alias, "anch": anch, "mi": 2, "lang": lang}, ctx.sub("t1"),
+                                      env=envf, timeout=3000, coverage=(label == "repaired"))
+                    if res.error:
+                        raise MachineryError(res.error)
+                    ctx.add_tlc("T1 %s %s" % (lang, label), res)
+                    if label == "repaired":
+                        need = ["INew", "IName", "ITouch"] if lang == "pddl" else ["INew"]
+                        for a in need:
+                            if res.coverage.get(a, (0, 0))[0] == 0:
+                                raise MachineryError("T1 %s: action %s never taken (vacuous design check)" % (lang, a))
+                        if res.violated:
+                            ctx.violation("T1|%s|%s" % (lang, res.violated),
+                                          "the repaired naming design (%s) violates %s" % (lang, res.violated),
+                                          {"trace": [s["vars"].get("wr") for s in res.trace]})
+                    elif res.violated:
+                        # a design-level counterexample of the mechanism as written: the problem is one of the
+                        # skeletons replayed below on the real writers, where the judge decides
+                        wr = res.trace[-1]["vars"].get("wr", {}) if res.trace else {}
+                        p = wr.get("p", {}) if isinstance(wr, dict) else {}
+                        try:
+                            items = [[x["kind"], uncp(x["orig"])] for x in p.get("items", [])]
+                        except Exception:
+                            items = []
+                        t1_notes.append({"lang": lang, "violates": res.violated, "items": items,
+                                         "writers_constructed_before": res.trace[-1]["vars"].get("touched") if res.trace else None})
+        # ---- T2: TLC-enumerated skeletons on the real writers --------------------------------
+        d = ctx.sub("enum%d" % fi)
+        out = os.path.join(d, "cases.ndjson")
+        e2 = dict(envf)
+        e2["OUT"] = out
+        res = tlc.run_tlc("RenamerEnum", "INIT EInit\nNEXT ENext\nCONSTANTS AliasKw = FALSE\n Anchored = TRUE\n MaxItems = %d\n MaxTouch = 0\n Lang = \"pddl\"\n" % mi,
+                          d, env=e2, workers=1, timeout=3000)
+        if res.error:
+            raise MachineryError(res.error)
+        cases = tlc.read_ndjson(out)
+        if not cases:
+            raise MachineryError("RenamerEnum emitted nothing")
+        pl = _Plan(fi * 1000000)
+        sample = set(rng.sample(range(len(cases)), min(nfresh, len(cases))))
+        for i, c in enumerate(cases):
+            P = skeleton_upj(c)
+            desc = {"skeleton": [[x["kind"], uncp(x["orig"])] for x in c["items"]], "feats": c["feats"]}
+            pre = toucher if "temporal" not in c["feats"] else toucher2
+            for mode in (["reload", "fresh"] if i in sample else ["reload"]):
+                for lang in ("pddl", "anml"):
+                    pl.add(lang, ("s", fi, i), [{"op": "write", "P": P}], mode, desc)
+                pl.add("pddl", ("s", fi, i), [{"op": "touch", "P": pre}, {"op": "write", "P": P}], mode, desc)
+        results = run_tasks(pl.tasks)
+        traces = assemble(ctx, results, pl.plan, kwlen, stats)
+        ctx.cov["evaluations"] += len(results)
+        for k in range(0, len(traces), BATCH):
+            judge(ctx, "enum%d-%d" % (fi, k // BATCH), traces[k:k + BATCH], env, pl.meta)
+        nontrivial += sum(1 for t in traces if any(it["name"] != it["orig"] for it in t["ops"][-1]["items"]))
+        n_enum += len(traces)
+    ctx.notes["t1_as_written_counterexamples"] = t1_notes
 
     # ---- T3: renamed G2 problems, first use and 2-step histories --------------------------
     n = max(12, int((400 if q else 4000) * scale))
     corpus = gen_corpus(rng, n, kws)
-    pl = _Plan(10000000)
+    pl = _Plan(100000000)
     sample = set(rng.sample(range(len(corpus)), min(nfresh, len(corpus))))
     for i, (P, desc) in enumerate(corpus):
         desc = dict(desc)
@@ -1161,7 +1173,8 @@ def run(ctx):
     results = run_tasks(pl.tasks)
     traces = assemble(ctx, results, pl.plan, kwlen, stats)
     ctx.cov["evaluations"] += len(results)
-    judge(ctx, "corpus", traces, env, pl.meta)
+    for k in range(0, len(traces), BATCH):
+        judge(ctx, "corpus-%d" % (k // BATCH), traces[k:k + BATCH], env, pl.meta)
     nontrivial += sum(1 for t in traces if any(it["name"] != it["orig"] for it in t["ops"][-1]["items"]))
     ctx.cov["distinct_nontrivial"] = nontrivial
     ctx.notes["writer_outcomes"] = stats
@@ -1184,13 +1197,14 @@ def run(ctx):
     ctx.cov["outcomes"] = stats
     ctx.cov["t1_as_written_counterexamples"] = t1_notes
     ctx.cov["rule"] = (
-        "T1: exhaustive BFS of RenamerImpl (as written and repaired) over skeletons of <= 2 items from %d adversarial names x "
-        "{object, action, parameter} x feature sets, with the real keyword sets. T2: every skeleton of <= %d items emitted by TLC "
-        "(RenamerEnum), built as a real problem, written by both writers in a fresh process, and by PDDLWriter after a writer "
-        "for a temporal (or constrained) problem. T3: %d seeded G2 problems (classical with metrics, state invariants / "
+        "T1: exhaustive BFS of RenamerImpl (as written and repaired) over the skeletons of <= 2 items of the first universe %r, "
+        "with the real keyword sets. T2: every skeleton of the universes %r (names, kinds, feature sets, max items) emitted by TLC "
+        "(RenamerEnum), built as a real problem, written by both writers on first use, and by PDDLWriter after a writer "
+        "for a temporal (or constrained) problem; first use = reloaded writer modules, and for a sample a new process. "
+        "T3: %d seeded G2 problems (classical with metrics, state invariants / "
         "trajectory constraints, temporal) with identifiers substituted from adversarial pools (case variants, keywords, "
         "symbols, unicode, leading digits, mangled forms, empty-ish), each written on first use and after another problem. "
-        "A case is counted non-trivial when some element had to be renamed." % (len(universe), mi, len(corpus))
+        "A case is counted non-trivial when some element had to be renamed." % (fams[0][0], fams, len(corpus))
     )
     ctx.cov["exhaustive"] = True
     ctx.assumptions += [
